@@ -54,7 +54,8 @@ func vhC08Block(sm *vhC08SM) *blockV2 {
 	b := &blockV2{sm: sm}
 	b.height = sym.I64("height")
 	b.timestamp = sym.I64("timestamp")
-	sym.Assume(sym.And(b.height >= 0, b.timestamp >= 0))
+	lim := int64(1)<<uint(sym.Param("INTBITS", 16)) - 1
+	sym.Assume(sym.And(b.height >= 0, b.timestamp >= 0, b.height <= lim, b.timestamp <= lim))
 	if sym.Bool("has_proposer") {
 		ab := sym.Bytes("proposer", 21)
 		sym.Assume(ab[0] <= 1)
@@ -148,13 +149,11 @@ func VH_C08_altered_encoding() {
 	enc := append([]byte(nil), buf.Bytes()...)
 	w := sym.Param("ALTER", 1)
 	if sym.Bool("cut") {
-		n := int(sym.U16("cut_at"))
-		sym.Assume(n < len(enc))
+		n := sym.Range("cut_at", 0, len(enc)-1)
 		enc = enc[:n]
 		sym.Reach("cut")
 	} else {
-		pos := int(sym.U16("pos"))
-		sym.Assume(pos+w <= len(enc))
+		pos := sym.Range("pos", 0, len(enc)-w)
 		nb := sym.Bytes("altered", w)
 		for i := 0; i < w; i++ {
 			enc[pos+i] = nb[i]
